@@ -421,7 +421,10 @@ class Verifier(Calls):
         ax.extend(cl.concat_axioms())
         # an abstract (shape) object is never one of the builtin containers
         ro = z3.Int("bro")
-        ax.append(z3.ForAll([ro], z3.Implies(shape_kind(ro) > 0, z3.And([so.typeof(ro) != self.cids.cid(k) for k in ("list", "set", "frozenset", "dict")])),
+        from .symex import so_truthy_obj
+        # (the tautological mention of truthy_obj makes the axiom relevant only to problems about truthiness of objects)
+        ax.append(z3.ForAll([ro], z3.Implies(shape_kind(ro) > 0, z3.And([so.typeof(ro) != self.cids.cid(k) for k in ("list", "set", "frozenset", "dict")]
+                                                                        + [z3.Or(so_truthy_obj(ro), z3.Not(so_truthy_obj(ro)))])),
                             patterns=[shape_kind(ro)]))
         ea = z3.Const("bea", SeqV)
         es = z3.Const("bes", so.S)
@@ -628,7 +631,7 @@ def to_smt2_sliced(obl, background):
     return to_smt2(o2, background)
 
 
-def discharge_singles(name, kind, line, nobg_text, timeout_ms=1500, limit=16, seed=0):
+def discharge_singles(name, kind, line, nobg_text, timeout_ms=2500, limit=12, seed=0):
     """weakenings `quantifier-free assumptions + ONE quantified assumption` (most recent first), from the no-background text.
     z3 finds the needed instance at once when the one relevant quantified fact stands alone, and wanders when all are present."""
     from .symex import has_quantifier
